@@ -5,7 +5,7 @@
    tables can produce (16 320 keys, computed once per TLC run from Tables3.tla, about 5 s).
    Scores3Fast = Scores3 by construction; MC_Score3 checks it on every base vector and on a
    seeded sample of full vectors.                                                          *)
-EXTENDS Score3, FiniteSets
+EXTENDS Score3, FiniteSets, IOUtils
 Rng(f) == {f[x] : x \in DOMAIN f}
 ReqWeighted == {(w * r) \div 10 : w \in Rng(WCIA3), r \in Rng(WREQ3)}
 IBSet == {Min(IB6(x,y,z), 915000) : x \in ReqWeighted, y \in ReqWeighted, z \in ReqWeighted}
@@ -18,7 +18,9 @@ ISCTabDef == [k \in {30,31} \X {"U","C"} \X IBSet |->
                 TLCEval(IF k[1] = 30 THEN ISC30(k[2], k[3]) ELSE ISC31(k[2], k[3]))]
 FinalTabDef(isc) == [k \in FinalKeys |->
                Final(k[2], isc[<<k[1],k[2],k[3]>>], IMulS(IOf(k[4]), 822), IF k[1] = 30 THEN 92 ELSE 132)]
-ASSUME Score3FastInit == LET isc == TLCEval(ISCTabDef) IN TLCSet(33, TLCEval(FinalTabDef(isc)))
+\* (only when the run needs v3 scores: environment variable NEED_V3=1; building the table takes ~5 s)
+NeedV3 == "NEED_V3" \in DOMAIN IOEnv /\ IOEnv.NEED_V3 = "1"
+ASSUME Score3FastInit == IF NeedV3 THEN LET isc == TLCEval(ISCTabDef) IN TLCSet(33, TLCEval(FinalTabDef(isc))) ELSE TLCSet(33, <<>>)
 FinalTab == TLCGet(33)
 Base3Fast(m) == FinalTab[<<30, m.S, IB6(WCIA3[m.C],WCIA3[m.I],WCIA3[m.A]),
                            WAV3[m.AV]*WAC3[m.AC]*PRW(m.S,m.PR)*WUI3[m.UI]>>]
